@@ -3402,8 +3402,7 @@ class UTPM(Ring, RawAlgorithmsMixIn):
             newshape = newshape[0]
         if order != 'C':
             raise NotImplementedError('should implement that')
-        cls = self.__class__
-        return cls(cls._reshape(self.data, newshape, order = order))
+        return UTPM(self._reshape(self.data, newshape, order = order))
 
 
     @classmethod
@@ -3673,3 +3672,14 @@ class UTP(UTPM):
     def __str__(self):
         """ return string representation """
         return str(self.coeff)
+
+
+# UTP differs from UTPM only in its constructor. The classmethods inherited
+# from UTPM (dot, inv, qr, real, diag, tile, init_jacobian, ...) build their
+# results with cls(data) from data in the (D,P,...) layout, i.e. with UTPM's
+# constructor: bind them to UTPM, so that they return UTPM instances for UTP
+# arguments (as the operators do)
+for _name, _attr in list(vars(UTPM).items()):
+    if isinstance(_attr, classmethod) and _name not in vars(UTP):
+        setattr(UTP, _name, staticmethod(getattr(UTPM, _name)))
+del _name, _attr
